@@ -33,10 +33,11 @@ pub fn normalise_sig(sig: &str) -> String {
                 }
             }
             out.push(format!("{kind}{q}"));
-        } else if *p == "cell-content" || *p == "cell-kind" || *p == "cell-value" {
-            // one class for "what the cell holds" (text, kind, computed value): a wrong undo of a
-            // structural edit shows up in whichever of the three the snapshot lists first
-            out.push("cell-data".to_string());
+        } else if *p == "cell-content" || *p == "cell-kind" {
+            // "what the cell holds" (kind or text).  `cell-value` stays separate: the diff is ordered by
+            // class, so `cell-value` means that ONLY computed values differ while every cell's content is
+            // equal — an evaluation effect, not a lost or wrong cell
+            out.push("cell-content".to_string());
         } else {
             out.push(p.to_string());
         }
@@ -45,7 +46,7 @@ pub fn normalise_sig(sig: &str) -> String {
     if joined.starts_with("c03:") {
         // replica divergence: which observable of the cell differs first depends on pool indices;
         // one class for the whole cell
-        return joined.replace(":cell-data", ":cell").replace(":cell-style", ":cell");
+        return joined.replace(":cell-content", ":cell").replace(":cell-value", ":cell").replace(":cell-style", ":cell");
     }
     joined
 }
